@@ -258,7 +258,13 @@ pub fn record(output: &str) {
             land = down_pose(x, yl, z + 0.1, yaw);
             park = down_pose(x, yl + 0.08, z + 0.1, yaw);
             obstacle = Some(WBox { c: [x, -0.08, z + 0.3], h: [0.35, 0.003, 0.6] });
-            narrow_limits = Some(([-0.75, -1.7, -1.0, -0.5, -2.0, -0.9], [0.35, 1.9, 1.1, 0.5, 2.0, 0.9]));
+            // (J1, J4, J6: five degrees beyond what start and landing solution span; the other joints keep their ranges)
+            let c0 = cell_with(None, 0, 6.0, false);
+            let Some(g) = c0.kws.kinematics.inverse_continuing(&land, &c0.home).first().cloned() else { continue; };
+            let mut lf: Joints = [-3.0, -1.7, -1.0, -3.4, -2.0, -6.0];
+            let mut lt: Joints = [3.0, 1.9, 1.1, 3.4, 2.0, 6.0];
+            for j in [0usize, 3, 5] { lf[j] = c0.home[j].min(g[j]) - 0.09; lt[j] = c0.home[j].max(g[j]) + 0.09; }
+            narrow_limits = Some((lf, lt));
         }
         if obstacle_class == "start-collides" {
             // a plate through the tool at the start configuration: planning has to refuse
